@@ -6,6 +6,7 @@
 //   harness seq   : stdin lines "n1 n2 ..."                 -> "r0 r1 r2 ..." (numTaskingThreads before / after each init)
 //   harness seq   : tokens may also be u (a parallel_for) / s (a schedule()d closure): uses before / between inits
 //   harness cre   : stdin lines "n m ms"  -> one thread loops parallel_for while this thread alternates init(n)/init(m)
+//   harness ot    : stdin lines "n size dur" -> the same measured loop from the initialising thread and from another thread
 //   harness pf    : stdin lines "nfirst n size dur"         -> "report=R count=C max_inside=M ids=I"
 //                   (nfirst != 0: an earlier initTaskingSystem(nfirst); dur: 0 | 50 | -1 (uneven) | -2 (NESTED:
 //                   each of the size outer bodies runs parallel_for(8) with 200 us bodies; count = inner bodies))
@@ -104,6 +105,45 @@ static std::string child_cre(const std::vector<int> &a)
   return o.str();
 }
 
+// loop issued by the initialising thread (control) and by ANOTHER thread: "n size dur_us"
+static std::string child_ot(const std::vector<int> &a)
+{
+  if (a.size() != 3) return "bad-case";
+  int n = a[0], size = a[1], dur = a[2];
+  initTaskingSystem(n);
+  int rep = numTaskingThreads();
+  auto measure = [&](int &maxout, int &cnt, int &nids) {
+    std::atomic<int> inside{0}, maxin{0}, count{0};
+    std::mutex m;
+    std::set<std::thread::id> ids;
+    {
+      std::atomic<int> warm{0};
+      parallel_for(8 * (rep > 0 ? rep : 1), [&](int) { warm++; spin_us(100); });
+    }
+    parallel_for(size, [&](int) {
+      int cur = ++inside;
+      int old = maxin.load();
+      while (cur > old && !maxin.compare_exchange_weak(old, cur)) {}
+      {
+        std::lock_guard<std::mutex> l(m);
+        ids.insert(std::this_thread::get_id());
+      }
+      spin_us(dur);
+      count++;
+      --inside;
+    });
+    maxout = maxin.load(); cnt = count.load(); nids = (int)ids.size();
+  };
+  int m0 = 0, c0 = 0, i0 = 0, m1 = 0, c1 = 0, i1 = 0;
+  measure(m0, c0, i0);                                   // control: the initialising thread
+  std::thread other([&]() { measure(m1, c1, i1); });     // a thread that never called initTaskingSystem
+  other.join();
+  std::ostringstream o;
+  o << "report=" << rep << " init_thread_count=" << c0 << " init_thread_max_inside=" << m0 << " init_thread_ids=" << i0
+    << " other_thread_count=" << c1 << " other_thread_max_inside=" << m1 << " other_thread_ids=" << i1;
+  return o.str();
+}
+
 static std::string child_pf(const std::vector<int> &a)
 {
   if (a.size() != 4) return "bad-case";
@@ -196,7 +236,7 @@ int main(int argc, char **argv)
       bool test_hang_before = !v.empty() && v[0] == 99990, test_hang_after = !v.empty() && v[0] == 99991;
       if (test_hang_before || test_hang_after) v.erase(v.begin());   // self-test of the watchdog only
       if (test_hang_before) pause();
-      std::string r = mode == "seq" ? child_seq(v) : mode == "cre" ? child_cre(v) : child_pf(v);
+      std::string r = mode == "seq" ? child_seq(v) : mode == "cre" ? child_cre(v) : mode == "ot" ? child_ot(v) : child_pf(v);
       r += "\n";
       ssize_t w = write(fd[1], r.c_str(), r.size());
       (void)w;
